@@ -75,7 +75,7 @@ def handle (I : Interner) (line : Json) : Json :=
   | "order" =>
     let label := strD c "cls"
     let counts := natList c "counts"
-    match Gen.ClassRows.rows.find? (fun r => r.label == label) with
+    match (Gen.ClassRows.rows ++ Gen.ClassRows.excluded).find? (fun r => r.label == label) with
     | none => Json.mkObj [("proto_error", Json.str ("unknown class row " ++ label))]
     | some r =>
       let m := tagsOf r.members counts
